@@ -1,10 +1,16 @@
 //! based on tailscale/tailcfg/derpmap.go
 
+#[cfg(not(iroh_verif))]
 use std::{
     collections::BTreeMap,
     fmt,
     sync::{Arc, RwLock},
 };
+#[cfg(iroh_verif)]
+use std::{collections::BTreeMap, fmt, sync::Arc};
+
+#[cfg(iroh_verif)]
+use iroh_base::verif::sync::RwLock;
 
 use iroh_base::{RelayUrl, RelayUrlParseError};
 use serde::{Deserialize, Serialize};
